@@ -69,7 +69,8 @@ class C09(BaseCheck):
     pid = 'C09'
     level = 'fault_enumeration'
     isolation = 'fork'
-    run_timeout_s = 240.0
+    run_timeout_s = 150.0
+    hang_timeout_s = 25.0
     step_unit = 'deliveries (one parse of one delivered text each)'
     tiers = {'quick': {'budget_s': 50, 'max_runs': 10 ** 9},
              'thorough': {'budget_s': 900, 'max_runs': 10 ** 9}}
@@ -109,6 +110,40 @@ class C09(BaseCheck):
         pp.ParserElement._parse = counted
         from hszinc.zincparser import ZincParseException
         self.ZPE = ZincParseException
+
+    def on_timeout(self, case, run_isolated):
+        """Termination is part of C09: a child that never comes back is not (only) a harness matter.  The
+        wall alarm inside the child cannot interrupt C code (a regular expression that backtracks for
+        weeks never returns to the interpreter), so the parent finds the delivery that does not terminate
+        by running the deliveries one per child under a short watchdog, and reports it as clause `hang`."""
+        import copy as _copy
+        ds = case['deliveries']
+        if len(ds) == 1:
+            d = ds[0]
+            return {'viol': {'clause': 'hang', 'detail': {'why': 'parse did not return within %ss (killed by the parent watchdog)'
+                                                                 % (self.hang_timeout_s if case.get('hang_probe') else self.run_timeout_s),
+                                                          'text': d['text'], 'faults': d['faults'], 'base': case['base']}},
+                    'digest': '', 'stats': {'class.' + case['class']: 1, 'fault.child_killed_after_hang': 1}, 'distinct': [],
+                    'nontrivial': False, 'steps': 1}
+        old = self.run_timeout_s
+        self.run_timeout_s = self.hang_timeout_s
+        try:
+            for d in ds:
+                c = _copy.deepcopy(case)
+                c['deliveries'] = [_copy.deepcopy(d)]
+                c['hang_probe'] = True
+                try:
+                    res = run_isolated(self, c, self.hang_timeout_s)
+                except runner.ChildTimeout:
+                    return {'viol': {'clause': 'hang', 'detail': {'why': 'parse did not return within %ss (killed by the parent watchdog)' % self.hang_timeout_s,
+                                                                  'text': d['text'], 'faults': d['faults'], 'base': case['base']}},
+                            'digest': '', 'stats': {'class.' + case['class']: 1, 'fault.child_killed_after_hang': 1},
+                            'distinct': [], 'nontrivial': False, 'steps': 1, 'case_override': c}
+                if res.get('viol'):
+                    return res
+        finally:
+            self.run_timeout_s = old
+        raise runner.HarnessError('the run as a whole exceeded %ss but no single delivery exceeds %ss' % (old, self.hang_timeout_s))
 
     def zygote_init(self):
         import io
@@ -166,7 +201,7 @@ class C09(BaseCheck):
         if escs:
             a, b = r.choice(escs)
             if b - a == 2:
-                out.append((text[:a + 1] + r.choice('qx0 ') + text[b:], 'bad-escape', 'escape letter replaced by an illegal one at %d' % a))
+                out.append((text[:a + 1] + r.choice('qx0 BFNRTa') + text[b:], 'bad-escape', 'escape letter replaced by an illegal one at %d' % a))
             else:
                 out.append((text[:a + 3] + 'g' + text[a + 4:], 'bad-escape', 'non-hex digit in \\u escape at %d' % a))
         # an upper-cased name is only guaranteed-broken where nothing else may start with a capital:
